@@ -35,13 +35,14 @@ TWINS = {
     'leb128::read::signed': 'k_leb_sleb_decode_spec',
     'leb128::read::u16': 'k_leb_u16_decode_spec',
     'leb128::read::skip': 'k_leb_skip_spec_b12',
+    'read::cfi::EhHdrTable::lookup': 'k_ehhdr_lookup_scan_le3',
 }
 
 # batches that are wired into checks (a batch under construction is simply not listed here yet)
-READY = ['core', 'eslice', 'op_eval', 'cfi_entries', 'cfi_uctx', 'cfi_uctx_link', 'line_hdr', 'attrs', 'units', 'dwarf_ranges', 'index', 'relocate',
+READY = ['core', 'eslice', 'op_eval', 'cfi_lookup', 'cfi_uctx', 'cfi_uctx_link', 'line_hdr', 'attrs', 'units', 'dwarf_ranges', 'index', 'relocate',
          'conv', 'filter', 'wcore', 'wreloc', 'wop', 'wlists', 'wunit', 'wcfi', 'wline']
 # batch -> batches whose items it re-verifies completely (so the smaller one need not run as well)
-SUPERSEDES = {'op_eval': ['op'], 'dwarf_ranges': ['lists'], 'cfi_uctx_link': ['cfi_unwind'], 'line_hdr': ['line']}
+SUPERSEDES = {'op_eval': ['op'], 'dwarf_ranges': ['lists'], 'cfi_uctx_link': ['cfi_unwind'], 'line_hdr': ['line'], 'cfi_lookup': ['cfi_entries']}
 # tags that only quote another property's vocabulary inside a batch (not obligations of that property)
 IGNORE = {('line_hdr', 'C03'), ('wline', 'C12'), ('filter', 'C01'), ('filter', 'C07'), ('wunit', 'C03'), ('wunit', 'C15'), ('wlists', 'C15'), ('conv', 'C05'), ('index', 'C09')}
 
